@@ -141,3 +141,25 @@ def product_info(names, G):
         return ca.diagcat(*blocks)
 
     return GroupInfo("x".join(names), grp, sort, M, hat, None, sum(asz), "product", faithful=False)
+
+
+def alg_sort(info, name="y", G=None):
+    """algebra-element sort for traces that go through exp: rotation part as a RotVec with base angle
+    theta/2 (quaternion, DCM, Euler) or theta/4 (MRP: tan(theta/4)); SO(2)/SE(2) angle as an Angle atom."""
+    from cyverif.sorts import RotVec
+    k = 4 if info.so3 == "Mrp" else 2
+    if info.kind == "so3":
+        parts = [RotVec(name + "_w", k)]
+    elif info.kind == "se3":
+        parts = [Free(name + "_v", 3), RotVec(name + "_w", k)]
+    elif info.kind == "se23":
+        parts = [Free(name + "_v", 3), Free(name + "_a", 3), RotVec(name + "_w", k)]
+    elif info.kind == "se2":
+        parts = [Free(name + "_v", 2), Angle(name + "_th")]
+    elif info.kind == "so2":
+        parts = [Angle(name + "_th")]
+    elif info.kind == "product":
+        parts = [alg_sort(G[n], f"{name}_{i}", G) for i, n in enumerate(info.name.split("x"))]
+    else:
+        parts = [Free(name + "_", info.n_alg)]
+    return Composite(name, parts)
